@@ -681,7 +681,13 @@ class MkBasis(Op):
              "sub": gen_subset(rng)}
         if g is not None:
             a["map"] = ref(g)
-        if rng.random() < 0.2:
+        d = S.pick(rng, "dofs", lambda x: x["elem"] == e
+                   and x.get("topo") == S.slots[m].get("topo"))
+        if d is not None and rng.random() < 0.6:
+            # a pool Dofs object (possibly already used by other bases, on
+            # this mesh or on a transformed copy of it)
+            a["dofs_obj"] = ref(d)
+        elif rng.random() < 0.2:
             # share the Dofs object of an earlier basis on the same mesh and
             # the same element object
             # (also of a basis on ANOTHER mesh object with the same cells:
@@ -711,7 +717,9 @@ class MkBasis(Op):
         k = a["kind"]
         io = a["intorder"]
         kw = {}
-        if "dofs_from" in a:
+        if "dofs_obj" in a:
+            kw["dofs"] = W[a["dofs_obj"]["ref"]]
+        elif "dofs_from" in a:
             kw["dofs"] = W[a["dofs_from"]["ref"]].dofs
         if k == "cell":
             return CellBasis(m, e, mapping=g, intorder=io, **kw)
@@ -769,6 +777,34 @@ class BasisDerive(Op):
         if a["how"] == "boundary":
             return b.boundary()
         return b.with_elements(resolve_subset(b.mesh.nelements, a["sub"]))
+
+
+@register
+class MkDofs(Op):
+    """A Dofs object (numbering of an element on a mesh topology) as a
+    first-class pool object, to be shared by several bases through the
+    public dofs= parameter."""
+    name = "mk_dofs"
+    out = "dofs"
+    weight = 0.8
+
+    def gen(self, rng, S):
+        m = S.pick(rng, "mesh")
+        if m is None:
+            return None
+        cell = S.slots[m]["cell"]
+        e = S.pick(rng, "elem", lambda x: x["cell"] == cell)
+        if e is None:
+            return None
+        return {"mesh": ref(m), "elem": ref(e)}
+
+    def meta(self, a, S):
+        return {"mesh": a["mesh"]["ref"], "elem": a["elem"]["ref"],
+                "topo": S.slots[a["mesh"]["ref"]].get("topo")}
+
+    def apply(self, W, a):
+        from skfem.assembly import Dofs
+        return Dofs(W[a["mesh"]["ref"]], W[a["elem"]["ref"]])
 
 
 @register
